@@ -473,6 +473,9 @@ where
 
     let mut left = initial.0;
     let mut right = initial.1;
+    if left > right {
+        std::mem::swap(&mut left, &mut right);
+    }
     let mut f_left = f(left);
     let mut f_right = f(right);
 
@@ -480,10 +483,15 @@ where
         return Err("itp: initial guesses must bracket root".to_owned());
     }
 
-    if f_left.is_sign_positive() {
-        std::mem::swap(&mut left, &mut right);
-        std::mem::swap(&mut f_left, &mut f_right);
-    }
+    // The method needs left < right and f(left) < 0 < f(right): work with -f
+    // for a decreasing function instead of exchanging the end points
+    let flip = if f_left.is_sign_positive() {
+        -N::one()
+    } else {
+        N::one()
+    };
+    f_left *= flip;
+    f_right *= flip;
 
     let two = N::from_i32(2).unwrap();
 
@@ -508,11 +516,11 @@ where
         } else {
             x_half - sigma * r
         };
-        let f_itp = f(x_itp);
-        if f_itp.is_sign_positive() {
+        let f_itp = flip * f(x_itp);
+        if f_itp > N::zero() {
             right = x_itp;
             f_right = f_itp;
-        } else if f_itp.is_sign_negative() {
+        } else if f_itp < N::zero() {
             left = x_itp;
             f_left = f_itp;
         } else {
